@@ -108,14 +108,27 @@ def _saturate(hyps, seeds, rounds, maxdeg, max_products):
     return prods, False
 
 
+def split_pairs(pairs):
+    """(lhs, rhs) Sym pairs -> list of (lhs_poly, rhs_poly) over the reals (real and imaginary parts separately)"""
+    out = []
+    for l, r in pairs:
+        l = S(l); r = S(r)
+        out.append((l.t, r.t))
+        if l.u or r.u:
+            out.append((l.u or {}, r.u or {}))
+    return out
+
+
 def prove(eng, goals=(), goal_atoms=(), rounds=2, maxdeg=8, extra_hyps=(), use_pc=True, timeout_ms=60000,
-          max_products=150000, acc=None, label='vc', ineq_multipliers=False, extra_atoms=()):
+          max_products=150000, acc=None, label='vc', ineq_multipliers=False, extra_atoms=(), pairs=()):
     """
     goals: polynomials (Sym or dict) that must equal 0;  goal_atoms: Atoms that must hold.
     Returns 'proved' | 'unproved' | 'unknown'.
     """
     t0 = time.time()
     gl = [g for g in split_goals(goals)]
+    pl = split_pairs(pairs)
+    pdiff = [psub(l, r) for l, r in pl]
     atoms = [a for a in goal_atoms if not (a.is_const() and a.const_value())]
     if any(a.is_const() and not a.const_value() for a in atoms):
         if acc is not None:
@@ -123,7 +136,7 @@ def prove(eng, goals=(), goal_atoms=(), rounds=2, maxdeg=8, extra_hyps=(), use_p
         return 'unproved'
     nz = [g for g in gl if g]
     # constant non-zero goals can never hold
-    if any(pis_const(g) for g in nz):
+    if any(pis_const(g) for g in nz) or any(d and pis_const(d) for d in pdiff):
         if acc is not None:
             acc.inc(label + '_unproved')
         return 'unproved'
@@ -134,6 +147,8 @@ def prove(eng, goals=(), goal_atoms=(), rounds=2, maxdeg=8, extra_hyps=(), use_p
     seeds = set()
     for g in nz:
         seeds |= set(g)
+    for d in pdiff:
+        seeds |= set(d)
     for a in atoms:
         seeds |= set(a.p)
     pc_atoms = ([a for a in eng.atoms if not is_int_poly(a.p)] if use_pc else []) + list(extra_atoms)
@@ -163,6 +178,8 @@ def prove(eng, goals=(), goal_atoms=(), rounds=2, maxdeg=8, extra_hyps=(), use_p
     for h in hyps:
         s.add(lin.rexpr(h) == 0)
     neg = [lin.rexpr(g) != 0 for g in nz] + [z3.Not(Lin.rel(lin.rexpr(a.p), a.op)) for a in atoms]
+    # pairs: both sides are handed to the solver separately (the solver, not the normaliser, decides equality)
+    neg += [lin.rexpr(l) != lin.rexpr(r) for l, r in pl if l or r]
     for x in lin.fresh_nonneg:
         s.add(x >= 0)
     lin.fresh_nonneg = []
@@ -181,18 +198,36 @@ def prove(eng, goals=(), goal_atoms=(), rounds=2, maxdeg=8, extra_hyps=(), use_p
         acc.inc(label + '_queries', 1 if neg else 0); acc.inc(label + '_' + res)
         acc.inc('vc_t_solver', dt); acc.inc('vc_t_build', t1 - t0); acc.inc('vc_products', len(prods))
         acc.inc('vc_queries', 1 if neg else 0)
-        acc.inc('vc_goals', len(nz) + len(atoms))
+        acc.inc('vc_goals', len(nz) + len(atoms) + len(pl))
         if capped:
             acc.inc(label + '_capped')
     return res
 
 
-def prove_escalating(eng, goals=(), goal_atoms=(), rounds=(1, 2, 3), **kw):
+def prove_escalating(eng, goals=(), goal_atoms=(), rounds=(1, 2, 3), acc=None, label='vc', **kw):
+    """try increasing multiplier rounds; only the final verdict is recorded under `label`"""
+    from .engine import Acc
     res = 'unproved'
-    for r in rounds:
-        res = prove(eng, goals, goal_atoms, rounds=r, **kw)
+    goals = list(goals)
+    for k_, r in enumerate(rounds):
+        if k_ > 0 and kw.get('pairs'):
+            kw = dict(kw)
+            goals = goals + [S(l) - S(r_) for l, r_ in kw.pop('pairs')]
+        tmp = Acc()
+        res = prove(eng, goals, goal_atoms, rounds=r, acc=tmp, label='x', **kw)
+        if acc is not None:
+            for k in ('vc_t_solver', 'vc_t_build', 'vc_products', 'vc_queries'):
+                acc.inc(k, tmp.get(k))
+            if k_ == 0:
+                acc.inc('vc_goals', tmp.get('vc_goals'))
+            if tmp.get('x_trivial'):
+                acc.inc(label + '_trivial')
         if res == 'proved':
-            return res
+            break
+        if acc is not None and k_ + 1 < len(rounds):
+            acc.inc(label + '_escalations')
+    if acc is not None:
+        acc.inc(label + '_' + res)
     return res
 
 
@@ -220,3 +255,71 @@ def prove_within_tolerance(eng, goals, input_vars, bound=1000, eps=Fraction(1, 1
         atoms.append(Atom(psub(g, pconst(eps)), '<='))
         atoms.append(Atom(psub(pneg(g), pconst(eps)), '<='))
     return prove(eng, [], atoms, rounds=0, extra_atoms=extra, acc=acc, label=label)
+
+
+def promote_zeros(eng, rounds=2, maxdeg=6):
+    """
+    Sign reasoning the linear prover cannot multiply with: find even-power monomials m that the path condition
+    forces to zero (e.g. a sum of squares <= 0), and add  m = 0  and its real square root  sqrt(m) = 0  (valid over the
+    reals) as hypotheses, so that later VCs may multiply them.  Returns the number of promoted monomials.
+    """
+    seeds = set()
+    for a in eng.atoms:
+        if is_int_poly(a.p):
+            continue
+        if a.op in ('<', '<=', '=='):
+            for m in a.p:
+                if m and all(e % 2 == 0 for _, e in m):
+                    seeds.add(m)
+    for h, t in zip(eng.hyps, eng.hyp_tags):
+        if t in ('sqrt', 'forced', None):
+            for m in h:
+                if m and all(e % 2 == 0 for _, e in m) and mono_deg(m) <= maxdeg:
+                    seeds.add(m)
+    done = getattr(eng, '_promoted', set())
+    seeds -= done
+    if not seeds:
+        return 0
+    hyps = [h for h in eng.hyps if h]
+    lin = Lin()
+    s = z3.SolverFor('QF_LRA')
+    s.set('timeout', 20000)
+    prods, _ = _saturate(hyps, seeds, rounds, maxdeg, 20000)
+    for p in prods:
+        s.add(lin.rexpr(p) == 0)
+    for h in hyps:
+        s.add(lin.rexpr(h) == 0)
+    for a in eng.atoms:
+        if not is_int_poly(a.p) and a.op != '==':
+            s.add(Lin.rel(lin.rexpr(a.p), a.op))
+    exprs = {m: lin.mon(m) for m in seeds}
+    for x in lin.fresh_nonneg:
+        s.add(x >= 0)
+    lin.fresh_nonneg = []
+    n = 0
+    for m, x in exprs.items():
+        if s.check(x > 0) == z3.unsat:
+            n += 1
+            done.add(m)
+            cur = m
+            while True:
+                eng.hyps.append({cur: 1}); eng.hyp_tags.append('promoted')
+                eng.rsolver.add(eng.lin.mon(cur) == 0)
+                if all(e % 2 == 0 for _, e in cur):
+                    cur = tuple((v, e // 2) for v, e in cur)
+                else:
+                    break
+    eng._promoted = done
+    if n:
+        eng.rmodel = None
+        eng._flush_nonneg()
+    return n
+
+
+def forced_zero_inputs(eng, var_indices, acc=None):
+    """input variables that are provably zero on this path (used to build faithful concrete replays)"""
+    out = []
+    for v in var_indices:
+        if prove(eng, [{((v, 1),): 1}], rounds=2, timeout_ms=5000) == 'proved':
+            out.append(v)
+    return out
